@@ -876,13 +876,22 @@ fn garbage(rng: &mut Rng, fq: bool) -> Vec<u8> {
                 let p = rng.below(f.len() + 1);
                 f.insert(p, 0xC3); // a lone UTF-8 lead byte
             }
-            if rng.chance(1, 30) {
-                // non-ASCII Unicode white space (NEL, NBSP, ideographic space) at the end of a line: `trim_end` removes
-                // it, the byte-level model (ASCII white space) does not — expected `drift-nonascii`
-                let ends: Vec<usize> = f.iter().enumerate().filter(|(_, &b)| b == b'\n').map(|(i, _)| i).collect();
-                if !ends.is_empty() {
-                    let p = ends[rng.below(ends.len())];
-                    let ws: &[u8] = [&b"\xc2\x85"[..], &b"\xc2\xa0"[..], &b"\xe3\x80\x80"[..]][rng.below(3)];
+            if rng.chance(1, 12) {
+                // non-ASCII Unicode white space (`trim_end`, FASTA header split) and near misses (U+200B, U+180E, U+0084,
+                // U+00A1 are not white space), at the end of a line or anywhere
+                const WS: &[&str] = &[
+                    "\u{85}", "\u{a0}", "\u{1680}", "\u{2000}", "\u{2005}", "\u{200a}", "\u{2028}", "\u{2029}", "\u{202f}",
+                    "\u{205f}", "\u{3000}", "\u{200b}", "\u{180e}", "\u{84}", "\u{a1}", "\u{2060}", "\u{feff}",
+                ];
+                let n = 1 + rng.below(2);
+                for _ in 0..n {
+                    let ends: Vec<usize> = f.iter().enumerate().filter(|(_, &b)| b == b'\n').map(|(i, _)| i).collect();
+                    let p = if !ends.is_empty() && rng.chance(2, 3) { ends[rng.below(ends.len())] } else { rng.below(f.len() + 1) };
+                    // only at a character boundary, so that the file stays valid UTF-8 where it was
+                    if p < f.len() && (f[p] & 0xC0) == 0x80 {
+                        continue;
+                    }
+                    let ws = WS[rng.below(WS.len())].as_bytes();
                     for (i, b) in ws.iter().enumerate() {
                         f.insert(p + i, *b);
                     }
